@@ -866,7 +866,8 @@ func eqnil(i *interpreter, t types.Type, x, y value) value {
 	return i.x.symEquals(t, x, y)
 }
 
-func unop(i *interpreter, instr *ssa.UnOp, x value) value {
+func unop(fr *frame, instr *ssa.UnOp, x value) value {
+	i := fr.i
 	if sx, ok := x.(sym); ok {
 		return i.x.symUnop(instr.Op, sx)
 	}
@@ -911,6 +912,7 @@ func unop(i *interpreter, instr *ssa.UnOp, x value) value {
 		if p == nil {
 			panic(runtimeError("invalid memory address or nil pointer dereference"))
 		}
+		i.x.noteAccess(p, false, fr)
 		return load(mustDeref(instr.X.Type()), p)
 	case token.NOT:
 		return !x.(bool)
